@@ -110,6 +110,10 @@ type Server struct {
 	// Mutex for updating svcs
 	mu sync.Mutex
 
+	// Serialises getSession: looking a session up and creating, initialising or
+	// updating it is one step for all connections that are being accepted.
+	sessMu sync.Mutex
+
 	// A indicator on whether this server has already checked configuration
 	configOnce sync.Once
 }
@@ -529,6 +533,11 @@ func (svr *Server) getSession(svc *service, req *message.ConnectMessage, resp *m
 	// subsequent session.
 
 	var err error
+
+	// Two CONNECTs with the same client ID may be handled at the same time; the
+	// second must not find the session of the first half initialised.
+	svr.sessMu.Lock()
+	defer svr.sessMu.Unlock()
 
 	// Check to see if the client supplied an ID, if not, generate one and set
 	// clean session.
